@@ -22,6 +22,7 @@ import (
 	"sort"
 	"strings"
 	"sync"
+	"time"
 
 	req "github.com/imroc/req/v3"
 	"github.com/imroc/req/v3/internal/dump"
@@ -232,8 +233,9 @@ const (
 var slotNames = []string{"Output", "RequestOutput", "ResponseOutput", "RequestHeaderOutput", "RequestBodyOutput", "ResponseHeaderOutput", "ResponseBodyOutput"}
 
 type sink struct {
-	mu   sync.Mutex
-	data map[[2]int][]byte // (dumper, writer id) -> content
+	slept int
+	mu    sync.Mutex
+	data  map[[2]int][]byte // (dumper, writer id) -> content
 }
 
 func newSink() *sink { return &sink{data: map[[2]int][]byte{}} }
@@ -242,6 +244,7 @@ type tagW struct {
 	s     *sink
 	d, id int
 	fail  bool // a broken writer: records what it is offered, then reports (0, error)
+	slow  bool // blocks ~2 ms in each of the first 25 writes of the run
 }
 
 var errDumpWriter = errors.New("c13: dump writer failed")
@@ -251,6 +254,15 @@ func (t *tagW) Write(p []byte) (int, error) {
 	k := [2]int{t.d, t.id}
 	t.s.data[k] = append(t.s.data[k], p...)
 	t.s.mu.Unlock()
+	if t.slow {
+		t.s.mu.Lock()
+		t.s.slept++
+		n := t.s.slept
+		t.s.mu.Unlock()
+		if n <= 25 {
+			time.Sleep(2 * time.Millisecond) // a writer that blocks for a while (terminal, pipe, slow disk)
+		}
+	}
 	if t.fail {
 		return 0, errDumpWriter
 	}
@@ -273,6 +285,7 @@ type optSpec struct {
 	On    [4]bool `json:"on"` // ReqHeader, ReqBody, RespHeader, RespBody
 	Async bool    `json:"async"`
 	Fail  bool    `json:"failing_writers,omitempty"` // every writer of this dumper reports an error
+	Slow  bool    `json:"slow_writers,omitempty"`    // every writer of this dumper blocks for a moment
 }
 
 func writerID(level, slot int) int { return 10 + 10*level + slot }
@@ -284,7 +297,7 @@ func (o optSpec) build(level int, s *sink) *req.DumpOptions {
 		if !o.Set[slot] {
 			return nil
 		}
-		return &tagW{s: s, d: level, id: writerID(level, slot), fail: o.Fail}
+		return &tagW{s: s, d: level, id: writerID(level, slot), fail: o.Fail, slow: o.Slow}
 	}
 	d := &req.DumpOptions{RequestHeader: o.On[0], RequestBody: o.On[1], ResponseHeader: o.On[2], ResponseBody: o.On[3], Async: o.Async}
 	// assign only non-nil (a typed nil *tagW in an io.Writer would not be == nil)
@@ -383,6 +396,10 @@ func genOpt(rng *hk.Rand, level int, r *hk.Run) optSpec {
 	if o.Fail {
 		r.Count("failing-dump-writers")
 	}
+	o.Slow = rng.Chance(10)
+	if o.Slow {
+		r.Count("blocking-dump-writers")
+	}
 	return o
 }
 
@@ -438,6 +455,9 @@ func (c dumpCfg) shape() string {
 		}
 		if o.Fail {
 			s += "f"
+		}
+		if o.Slow {
+			s += "s"
 		}
 	}
 	return s
